@@ -460,7 +460,9 @@ def run(tier, seed):
         for c in rp:
             c['tag'] = ['wf', 'repo_tests']
         o.extra['structures_built_during_repo_tests'] = len(rp)
-        cases = cases + rp
+        rd = rt.get('dense', [])
+        o.extra['tensors_densified_by_repo_tests_judged'] = len(rd)
+        cases = cases + rp + rd
         ph['repo_tests_s'] = round(_t.time() - t0) - ph['drive_s']
         t1 = _t.time()
         verdicts, st, tr, _ = judge_batch(work / 'judge', 'Trace_Tensor', cases, per_shard_min=400, heap='3g')
